@@ -2,3 +2,4 @@ import SwhVerif.Base.Bytes
 import SwhVerif.Base.Headers
 import SwhVerif.Gen.Tables
 import SwhVerif.Model.Directory
+import SwhVerif.Model.Snapshot
